@@ -15,7 +15,7 @@ class Rule:
 
     def check(self, cond, role, ok_what, how, bad_msg, site=None, nontrivial=True):
         if cond:
-            self.rep.ok(self.rule, self.func, ok_what, how, nontrivial=nontrivial, site=site or self.site)
+            self.rep.ok(self.rule, self.func, ok_what, how or "holds", nontrivial=nontrivial, site=site or self.site)
             return True
         self.failed = True
         self.rep.violation(self.rule, self.func, role, site or self.site, bad_msg)
